@@ -24,7 +24,7 @@ def run(tier, seed):
     ctx = core.Ctx(PID, tier, seed, LEVEL)
     rng = ctx.rng
     progs = []      # (tag, forms)
-    reps = 4 if tier == "quick" else 30
+    reps = 4 if tier == "quick" else core.share(32)
     for outer in FORMS:
         for pos in POSITIONS[outer]:
             for inner in FORMS:
@@ -42,7 +42,7 @@ def run(tier, seed):
                 if got == 0:
                     ctx.count("pair_shapes_not_instantiated")
     npairs = len(progs)
-    nrand = 3000 if tier == "quick" else 50000
+    nrand = 3000 if tier == "quick" else core.share(50000)
     depth = 4 if tier == "quick" else 5
     while len(progs) < npairs + nrand:
         g = DG(rng, capture_rate=0.03)
